@@ -1,6 +1,8 @@
 package eval
 
 import (
+	"reflect"
+
 	"src.elv.sh/pkg/eval/errs"
 	"src.elv.sh/pkg/eval/vals"
 )
@@ -24,11 +26,26 @@ func not(v any) bool {
 
 func is(args ...any) bool {
 	for i := 0; i+1 < len(args); i++ {
-		if args[i] != args[i+1] {
+		if !same(args[i], args[i+1]) {
 			return false
 		}
 	}
 	return true
+}
+
+// Reports whether a and b are identical. Comparing two interface values
+// holding an uncomparable Go type (such as a styled text, which is a slice)
+// with == panics; such values are identical only if they are the same slice.
+func same(a, b any) bool {
+	ta, tb := reflect.TypeOf(a), reflect.TypeOf(b)
+	if (ta != nil && !ta.Comparable()) || (tb != nil && !tb.Comparable()) {
+		if ta != tb || ta.Kind() != reflect.Slice {
+			return false
+		}
+		va, vb := reflect.ValueOf(a), reflect.ValueOf(b)
+		return va.Len() == vb.Len() && (va.Len() == 0 || va.Pointer() == vb.Pointer())
+	}
+	return a == b
 }
 
 func eq(args ...any) bool {
